@@ -139,25 +139,10 @@ func (r *vxRun) revert() {
 	r.blooms = r.blooms[:nb]
 }
 
-// vxBloomOf is the engine-side replacement of the header projection decode (the codec model keeps
-// stored records opaque): the bloom of the canonical block.
-var vxCurrent *vxRun
-
-func vxBloomOf(r db.KeyValueReader, blockNum uint64) (*bloom.BloomFilter, error) {
-	if blockNum >= uint64(len(vxCurrent.blooms)) {
-		return nil, db.ErrKeyNotFound
-	}
-	return vxRowBloom(vxCurrent.blooms[blockNum]), nil
-}
-
 func VxC09RestartAfterReorg() {
 	vx.Bound("run 1: 1..3 blocks (each with one event key, bloom row A) then graceful shutdown (snapshot) or kill; run 2: revert 0..all blocks, store 0..2 replacement blocks (bloom row B), kill; restart. Heights < 8192 (one window)")
 	const rowA, rowB = 5, 700
 	r := &vxRun{d: memory.New()}
-	vxCurrent = r
-	if vx.InEngine() {
-		vx.Stub("github.com/NethermindEth/juno/core.GetBlockHeaderEventsBloomByNumber", vxBloomOf)
-	}
 	var err error
 	r.rf, err = InitializeRunningEventFilter(r.d)
 	vx.Assert(err == nil, "first-start-ok")
